@@ -1,6 +1,239 @@
+(* C08 — property theorems.  Only statements (closed by [exact] of a lemma of
+   Proofs.v) and non-vacuity examples.
+
+   Model: decoded tar member lists (the tar/gzip codecs are CPython's), Bob's
+   TarHelper._extract / __extractPackage / _tarExtractFilter, CPython 3.12
+   TarFile.extract + os.makedirs + os.path.realpath, a file system with
+   directories, inodes, symbolic and hard links, and the post-download check of
+   builder.py.  All of it is validated against the real code on every run. *)
 From Coq Require Import List NArith Bool.
-Require Import BobV.Gen.ConstsC08 BobV.C08.Model BobV.C08.Proofs.
+Require Import BobV.Gen.ConstsC08 BobV.C08.Model BobV.C08.Proofs BobV.C08.Roundtrip.
 Import ListNotations.
 Open Scope N_scope.
-Example placeholder_nonvacuous : is_prefix [[1]] [[1];[2]] = true.
-Proof. vm_compute. reflexivity. Qed.
+
+(* ---------------------------------------------------------------- extraction is confined *)
+
+(* Whatever the kernel resolves a path to (following links) is what
+   os.path.realpath computes for it: the filter judges the location the
+   system calls act on. *)
+Theorem kernel_agrees_with_realpath : forall fuel fs cs l,
+  kres fuel fs [] true [] cs = Some l -> realpath fuel fs cs = Some l.
+Proof. exact realpath_kres_follow. Qed.
+
+(* TarHelper._extract of ANY artifact (hostile member names, kinds, link
+   targets, order, duplicates, version header, truncation) leaves every
+   location that is neither the workspace (or below) nor the audit file (or
+   below) as it was: same node, same inode, same content and mode of the inode.
+   Assumptions about the state before: workspace and audit paths are canonical
+   and not nested, the ancestors of the workspace are directories, no symbolic
+   link exists outside workspace/audit, inode numbers handed out are unused.
+
+   _partial: the statement carries one run-time side condition,
+   [snd (bob_extract ...) = false]: tarfile's makelink() fall-back did not
+   re-extract a member in a state where the parent directory of the target had
+   to be created again (only reachable when a symlink member's own path runs
+   through the very link it replaces, e.g. member 's/s' over s -> '.').  Full
+   statement = the same without that hypothesis; it is proved below for every
+   extraction that is not rejected ([accepted_extraction_confined]); for rejected
+   ones in that corner it is exercised by the correspondence and the oracle only. *)
+Theorem extract_confined_partial : forall fuel fs audit dest a,
+  plain dest -> plain audit ->
+  is_prefix dest audit = false -> is_prefix audit dest = false ->
+  fresh_ok fs ->
+  (forall q, allowed dest audit q = false -> sym_at fs q = None) ->
+  (forall x b, dest = x ++ b -> b <> [] -> is_dir fs x = true) ->
+  snd (bob_extract fuel fs audit dest a) = false ->
+  same_outside (allowed dest audit) fs (fst (fst (bob_extract fuel fs audit dest a))).
+Proof. exact extract_confined_partial_stmt. Qed.
+
+(* Full statement for every extraction that is not rejected. *)
+Theorem accepted_extraction_confined : forall fuel fs audit dest a,
+  plain dest -> plain audit ->
+  is_prefix dest audit = false -> is_prefix audit dest = false ->
+  fresh_ok fs ->
+  (forall q, allowed dest audit q = false -> sym_at fs q = None) ->
+  (forall x b, dest = x ++ b -> b <> [] -> is_dir fs x = true) ->
+  snd (fst (bob_extract fuel fs audit dest a)) = Extracted ->
+  same_outside (allowed dest audit) fs (fst (fst (bob_extract fuel fs audit dest a))).
+Proof. exact accepted_extraction_confined_stmt. Qed.
+
+(* One accepted member: every state reached while tarfile works on it
+   (parent directories, the node itself, attributes, the fall-back of
+   makelink) keeps the invariant "nothing outside the destination changed, no
+   inode is shared between inside and outside, no link outside". *)
+Theorem member_extraction_confined : forall (ok : path -> bool) dest fuel fs0 fs m sa before whole,
+  (forall p r, ok p = true -> ok (p ++ r) = true) ->
+  (forall q, is_prefix dest q = true -> ok q = true) ->
+  nodd dest ->
+  inv ok fs0 fs /\ is_dir fs dest = true ->
+  (m_kind m = MLnk -> sa = false) ->
+  x_nmk (tar_extract fuel fs dest m sa before whole) = false ->
+  inv ok fs0 (x_fs (tar_extract fuel fs dest m sa before whole)) /\
+  is_dir (x_fs (tar_extract fuel fs dest m sa before whole)) dest = true.
+Proof. exact member_extraction_confined_stmt. Qed.
+
+(* ---------------------------------------------------------------- packing is lossless *)
+
+(* TarHelper._pack of ANY workspace tree (regular files, directories including
+   empty ones, symbolic links, hard links, fifos, device nodes, any mode bits,
+   any entry names without '/') followed by TarHelper._extract into a fresh
+   workspace: the artifact is extracted without rejection, the audit trail has
+   the same bytes, and the extracted tree equals the packed one as a map from
+   relative paths to nodes: same directories with the same mode, and leaves
+   whose inode has the same kind, content (data / link target / device number)
+   and mode.  Hard links are packed as links to the first name and extracted as
+   names of one inode.  Assumptions on the source: entry names are distinct
+   valid names, every leaf has an inode, symlink inodes carry mode 0o777 and
+   fifo inodes no data (what lstat reports); on the target: [target_ok].
+
+   _partial with respect to the property text: "identical directory hash" is
+   not derived inside Coq.  hash_dir sorts the entries of every directory by
+   name, so it is a function of exactly this path -> node map; the missing step
+   is the uniqueness of the sorted entry list.  hash_dir of source and
+   extracted tree is evaluated and compared with bob.utils.hashDirectory on
+   every generated tree by the correspondence. *)
+Theorem pack_extract_roundtrip_partial : forall fuel sfs saudit scontent fs audit dest art m es ab,
+  t_get (f_root sfs) scontent = Some (TDir m es) -> src_ok sfs (TDir m es) ->
+  audit_bytes sfs saudit = Some ab ->
+  pack sfs saudit scontent = Some art ->
+  target_ok fs audit dest ->
+  snd (fst (bob_extract (S fuel) fs audit dest art)) = Extracted /\
+  audit_bytes (fst (fst (bob_extract (S fuel) fs audit dest art))) audit = Some ab /\
+  (forall n r0, node_match sfs (t_stat (TDir m es) (n :: r0)) (fst (fst (bob_extract (S fuel) fs audit dest art)))
+                           (stat (fst (fst (bob_extract (S fuel) fs audit dest art))) (dest ++ n :: r0))).
+Proof. exact pack_extract_roundtrip_proof. Qed.
+
+(* ---------------------------------------------------------------- corrupt / foreign artifacts are rejected *)
+
+(* An extraction that is not rejected saw the version header "1", only members
+   of the known classes, and a clean end of the stream. *)
+Theorem wrong_version_unknown_member_truncation_rejected : forall fuel fs audit dest a,
+  snd (fst (bob_extract fuel fs audit dest a)) = Extracted ->
+  a_pax a = Some VSN_ONE /\ forallb classified (a_members a) = true /\ a_tail_ok a = true.
+Proof. exact bob_extract_accepts. Qed.
+
+(* The download path accepts a package only if extraction succeeded, the audit
+   trail exists, and the result hash recorded in it equals the directory hash of
+   what was extracted (H = SHA-1, [recorded] = parsing of the audit trail; both
+   arbitrary): a missing audit trail, an unreadable one, or a content mismatch
+   is never accepted. *)
+Theorem mismatch_or_missing_audit_rejected :
+  forall (H : str -> str) (recorded : str -> option str) fuel fs audit dest a fs' h,
+  download H recorded fuel fs audit dest a = (fs', Accepted h) ->
+  exists art ab k, a = Some art /\ bob_extract fuel fs audit dest art = (fs', Extracted, k) /\
+    sys_exists fuel fs' audit = true /\
+    audit_bytes fs' audit = Some ab /\ recorded ab = Some h /\ hash_dir H fs' dest = Some h.
+Proof. exact download_accept. Qed.
+
+(* ---------------------------------------------------------------- non-vacuity *)
+(* / { o/{victim (inode 1, 0600)}, p/{ q/{ ws/ } } } *)
+Definition ex_fs : fsys :=
+  mkFs (TDir 493 [([111], TDir 493 [([118], TLeaf 1)]);
+                  ([112], TDir 493 [([113], TDir 493 [([119], TDir 493 [])])])])
+       [(1, mkInode KReg [112; 114; 101] 384)] 2.
+Definition ex_dest : path := [[112]; [113]; [119]].
+Definition ex_audit : path := [[112]; [113]; [97]].
+Definition ex_auditm : member := mkMember AUDIT_NAME MReg [] 420 [65].
+Definition c (s : str) : str := CONTENT_PREFIX ++ s.
+
+(* F2: hard link content/x -> content/../../../o/v, then a regular member content/x *)
+Example f2_hardlink_rejected_victim_untouched :
+  let a := mkArtifact (Some VSN_ONE)
+             [ex_auditm; mkMember (c [120]) MLnk (c [46;46;47;46;46;47;46;46;47;111;47;118]) 438 [];
+              mkMember (c [120]) MReg [] 438 [111; 119; 110]] true in
+  let r := bob_extract 20 ex_fs ex_audit ex_dest a in
+  snd (fst r) = Rejected /\ snd r = false /\
+  stat (fst (fst r)) [[111]; [118]] = Some (SLeaf 1) /\
+  inode_of (fst (fst r)) 1 = Some (mkInode KReg [112; 114; 101] 384).
+Proof. vm_compute. repeat split; reflexivity. Qed.
+
+(* symlink s -> ../../../o then a write through it: rejected, nothing created outside *)
+Example symlink_then_write_rejected :
+  let a := mkArtifact (Some VSN_ONE)
+             [ex_auditm; mkMember (c [115]) MSym [46;46;47;46;46;47;46;46;47;111] 511 [];
+              mkMember (c [115; 47; 118]) MReg [] 420 [111; 119; 110]] true in
+  let r := bob_extract 20 ex_fs ex_audit ex_dest a in
+  snd (fst r) = Rejected /\ inode_of (fst (fst r)) 1 = Some (mkInode KReg [112; 114; 101] 384) /\
+  sym_at (fst (fst r)) (ex_dest ++ [[115]]) = Some [46;46;47;46;46;47;46;46;47;111].
+Proof. vm_compute. repeat split; reflexivity. Qed.
+
+(* hard link to a symlink that resolves differently from its new place:
+   extracted, and the outside file keeps its mode 0600 (no attributes through links) *)
+Example hardlink_to_symlink_keeps_outside_mode :
+  let a := mkArtifact (Some VSN_ONE)
+             [ex_auditm; mkMember (c [118]) MReg [] 420 [105];
+              mkMember (c [97; 47; 98; 47; 99; 47; 115]) MSym [46;46;47;46;46;47;46;46;47;118] 511 [];
+              mkMember (c [104]) MLnk (c [97; 47; 98; 47; 99; 47; 115]) 2559 []] true in
+  let r := bob_extract 20 ex_fs ex_audit ex_dest a in
+  snd (fst r) = Extracted /\
+  sym_at (fst (fst r)) (ex_dest ++ [[104]]) = Some [46;46;47;46;46;47;46;46;47;118] /\
+  inode_of (fst (fst r)) 1 = Some (mkInode KReg [112; 114; 101] 384).
+Proof. vm_compute. repeat split; reflexivity. Qed.
+
+(* '..' behind a missing component: rejected before any directory is made *)
+Example dotdot_behind_missing_rejected :
+  let a := mkArtifact (Some VSN_ONE)
+             [ex_auditm; mkMember (c [115]) MSym [46;46;47;46;46;47;46;46] 511 [];
+              mkMember (c [115;47;110;47;46;46;47;112;47;113;47;119;47;120]) MReg [] 420 [120]] true in
+  let r := bob_extract 20 ex_fs ex_audit ex_dest a in
+  snd (fst r) = Rejected /\ stat (fst (fst r)) [[110]] = None.
+Proof. vm_compute. repeat split; reflexivity. Qed.
+
+(* a benign artifact is extracted: directory, file with mode, symlink, hard link *)
+Example benign_extracted :
+  let a := mkArtifact (Some VSN_ONE)
+             [ex_auditm; mkMember CONTENT_NAME MDir [] 493 [];
+              mkMember (c [100]) MDir [] 448 []; mkMember (c [100; 47; 102]) MReg [] 365 [104; 105];
+              mkMember (c [108]) MSym [100; 47; 102] 511 [];
+              mkMember (c [104]) MLnk (c [100; 47; 102]) 365 []] true in
+  let r := bob_extract 20 ex_fs ex_audit ex_dest a in
+  snd (fst r) = Extracted /\ snd r = false /\
+  stat (fst (fst r)) (ex_dest ++ [[100]]) = Some (SDir 448) /\
+  stat (fst (fst r)) (ex_dest ++ [[104]]) = stat (fst (fst r)) (ex_dest ++ [[100]; [102]]) /\
+  audit_bytes (fst (fst r)) ex_audit = Some [65].
+Proof. vm_compute. repeat split; reflexivity. Qed.
+
+(* the hypotheses of the confinement theorems hold of the example state *)
+Example confinement_hypotheses_nonvacuous :
+  plain ex_dest /\ plain ex_audit /\ is_prefix ex_dest ex_audit = false /\ is_prefix ex_audit ex_dest = false /\
+  (forall x b, ex_dest = x ++ b -> b <> [] -> is_dir ex_fs x = true).
+Proof.
+  repeat split; try reflexivity.
+  intros x b E Hb.
+  destruct x as [|x1 [|x2 [|x3 [|x4 x]]]]; simpl in E; inversion E; subst; try reflexivity.
+Qed.
+
+(* unknown member / wrong version / truncated stream are rejected *)
+Example unknown_member_rejected :
+  snd (fst (bob_extract 20 ex_fs ex_audit ex_dest
+         (mkArtifact (Some VSN_ONE) [ex_auditm; mkMember [101; 118; 105; 108] MReg [] 420 []] true))) = Rejected /\
+  snd (fst (bob_extract 20 ex_fs ex_audit ex_dest (mkArtifact (Some [50]) [ex_auditm] true))) = Rejected /\
+  snd (fst (bob_extract 20 ex_fs ex_audit ex_dest (mkArtifact (Some VSN_ONE) [ex_auditm] false))) = Rejected /\
+  snd (fst (bob_extract 20 ex_fs ex_audit ex_dest (mkArtifact (Some VSN_ONE) [ex_auditm] true))) = Extracted.
+Proof. vm_compute. repeat split; reflexivity. Qed.
+
+(* a source tree: src/{audit (inode 9), content/{d/{f (inode 1, 0555)}, h (hard link to inode 1), l -> d/f, e/ (empty, 0700)}} *)
+Definition ex_src : fsys :=
+  mkFs (TDir 493 [([115], TDir 493 [([97], TLeaf 9);
+                                    ([99], TDir 493 [([100], TDir 488 [([102], TLeaf 1)]); ([104], TLeaf 1);
+                                                     ([108], TLeaf 2); ([101], TDir 448 [])])])])
+       [(1, mkInode KReg [104; 105] 365); (2, mkInode KSym [100; 47; 102] 511); (9, mkInode KReg [65; 85] 420)] 10.
+
+Example roundtrip_nonvacuous :
+  match pack ex_src [[115]; [97]] [[115]; [99]] with
+  | Some art =>
+    let r := bob_extract 20 ex_fs ex_audit ex_dest art in
+    length (a_members art) = 7%nat /\
+    snd (fst r) = Extracted /\
+    audit_bytes (fst (fst r)) ex_audit = Some [65; 85] /\
+    stat (fst (fst r)) (ex_dest ++ [[100]]) = Some (SDir 488) /\
+    stat (fst (fst r)) (ex_dest ++ [[101]]) = Some (SDir 448) /\
+    stat (fst (fst r)) (ex_dest ++ [[104]]) = stat (fst (fst r)) (ex_dest ++ [[100]; [102]]) /\
+    sym_at (fst (fst r)) (ex_dest ++ [[108]]) = Some [100; 47; 102] /\
+    match stat (fst (fst r)) (ex_dest ++ [[104]]) with
+    | Some (SLeaf i) => inode_of (fst (fst r)) i = Some (mkInode KReg [104; 105] 365)
+    | _ => False
+    end
+  | None => False
+  end.
+Proof. vm_compute. repeat split; reflexivity. Qed.
